@@ -152,3 +152,27 @@ fn k_rings_near_closed_and_ring_order() {
     assert!(r1.len() == 5 && r1[3].x.to_bits() == tiny.to_bits() && r1[4].x == 0.0 && r1[4].y == 0.0 && r1[1].y == 9.0);
     assert!(poly.rings()[0].points().len() == 4 && poly.rings()[0].points()[1].x == 3.0);
 }
+
+/// C05: the box of a multipatch covers every patch, whatever its kind (an inner ring holding the extreme Z and M)
+#[kani::proof]
+#[kani::unwind(8)]
+fn k_rings_multipatch_box_all_patches() {
+    let o = vec![PointZ::new(0.0, 0.0, 1.0, 1.0), PointZ::new(0.0, 9.0, 1.0, 1.0), PointZ::new(9.0, 9.0, 1.0, 1.0), PointZ::new(0.0, 0.0, 1.0, 1.0)];
+    let h = vec![PointZ::new(1.0, 2.0, -4.0, 90.0), PointZ::new(3.0, 4.0, 25.0, -7.0), PointZ::new(1.0, 5.0, 2.0, 2.0), PointZ::new(1.0, 2.0, -4.0, 90.0)];
+    let s = vec![PointZ::new(-3.0, 2.0, 1.0, 1.0), PointZ::new(3.0, 12.0, 1.0, 1.0), PointZ::new(1.0, 5.0, 1.0, 1.0)];
+    let mp = Multipatch::with_parts(vec![Patch::OuterRing(o), Patch::InnerRing(h), Patch::TriangleStrip(s)]);
+    let b = mp.bbox();
+    assert!(b.min.x == -3.0 && b.max.x == 9.0 && b.min.y == 0.0 && b.max.y == 12.0);
+    assert!(b.min.z == -4.0 && b.max.z == 25.0 && b.min.m == -7.0 && b.max.m == 90.0);
+}
+
+/// C05: an infinite measure on a vertex that is not the first one is the extreme of the M range
+#[kani::proof]
+#[kani::unwind(6)]
+fn k_rings_m_range_with_infinite_measure() {
+    let mp = MultipointM::new(vec![PointM::new(1.0, 1.0, 1.0), PointM::new(2.0, 2.0, f64::INFINITY), PointM::new(3.0, 3.0, 2.0)]);
+    assert!(mp.bbox().min.m == 1.0 && mp.bbox().max.m == f64::INFINITY);
+    let mz = MultipointZ::new(vec![PointZ::new(1.0, 1.0, 0.0, 5.0), PointZ::new(2.0, 2.0, 0.0, f64::NEG_INFINITY + 0.0)]);
+    // -inf is below the no-data threshold: it is still the minimum of the stored values
+    assert!(mz.bbox().max.m == 5.0 && mz.bbox().min.m == f64::NEG_INFINITY);
+}
